@@ -288,7 +288,8 @@ def make_plan(seed: int, tier: str, index: int) -> dict[str, Any]:
     plan: dict[str, Any] = {"property": PROP, "seed": seed, "sub_batch": sub, "corpus": corpus,
                             "clients": clients, "schedule": schedule, "knobs": knobs}
     if index % FRESH_EVERY[tier] == 0:
-        plan["fresh"] = {"op": [0, 0], "hashseed": p.randint(1, 2**31 - 1)}
+        plan["fresh"] = {"op": [0, 0], "hashseed": p.randint(1, 2**31 - 1),
+                         "flavour": p.choice(sorted(env.FLAVOURS))}
     return plan
 
 
@@ -360,7 +361,8 @@ def _cold_lines(op: dict[str, Any], data: bytes) -> list[list[Any]]:
     return [list(x) for x in sorted(seen[0] - seen[1])]
 
 
-def _fresh_reference(op: dict[str, Any], data: bytes, hashseed: int) -> dict[str, Any]:
+def _fresh_reference(op: dict[str, Any], data: bytes, hashseed: int,
+                     flavour: str = "default") -> dict[str, Any]:
     d = os.path.join(env.scratch(), "fresh")
     os.makedirs(d, exist_ok=True)
     path = os.path.join(d, f"f-{os.getpid()}.chart")
@@ -368,13 +370,13 @@ def _fresh_reference(op: dict[str, Any], data: bytes, hashseed: int) -> dict[str
         fh.write(data)
     req = {"path": path, "select": op.get("select"), "via": op.get("via"),
            "reader": op.get("reader"), "newline": op.get("newline"), "encoding": op.get("encoding")}
-    p = subprocess.run([env.PYTHON, "-m", "detsim.freshref"], input=json.dumps(req),
-                       capture_output=True, text=True, timeout=120,
-                       env=env.fresh_interpreter_env(hashseed), cwd=env.VERIF_ROOT)
+    p = subprocess.run([env.PYTHON, "-m", "detsim.freshref"], input=json.dumps(req).encode("utf-8"),
+                       capture_output=True, timeout=120,
+                       env=env.fresh_interpreter_env(hashseed, flavour), cwd=env.VERIF_ROOT)
     os.unlink(path)
     if p.returncode != 0:
-        raise HarnessError(f"fresh interpreter failed: {p.stderr[-800:]}")
-    return json.loads(p.stdout)
+        raise HarnessError(f"fresh interpreter failed: {p.stderr.decode('utf-8', 'replace')[-800:]}")
+    return json.loads(p.stdout.decode("ascii"))
 
 
 # ----------------------------------------------------------------------------------------------
@@ -440,13 +442,14 @@ def execute(plan: dict[str, Any]) -> dict[str, Any]:
             if ci < len(plan["clients"]) and k < len(plan["clients"][ci]):
                 op = plan["clients"][ci][k]
                 key = json.dumps(parseop.access_key(op))
-                fo = _fresh_reference(op, data_of[op["text"]], fr["hashseed"])
+                fo = _fresh_reference(op, data_of[op["text"]], fr["hashseed"], fr.get("flavour", "default"))
                 fresh_refs = 1
+                probes["fresh_interpreter_env:" + fr.get("flavour", "default")] = 1
                 if fo != refs[key]:
                     vio("fresh-interpreter-disagrees",
                         f"text {op['text']} via {parseop.access_key(op)[2:]}: forked reference "
                         f"{_short(refs[key])} but fresh interpreter (PYTHONHASHSEED="
-                        f"{fr['hashseed']}) {_short(fo)}")
+                        f"{fr['hashseed']}, environment {fr.get('flavour', 'default')}) {_short(fo)}")
     except (runner.ChildFailure, HarnessError, subprocess.TimeoutExpired) as e:
         harness_error = f"reference computation failed: {e}"
 
